@@ -366,15 +366,12 @@ def check(ctx, case, uni, ans):
     ctx.count("outcome:" + ("ok" if "removed" in impl else impl["err"]))
     # the directory layout: what the store lists as its objects is what the two-component paths below its root spell, and
     # a collection leaves every other file below the root where it was
-    # (the names family does not vary the layout of the store: it leaves this tie, one driver process per case, to the others)
-    if case.get("names") is None:
-        f_before, all_before, f_after, all_after = run_impl.layout
-        lay = ctx.driver.ask({"op": "store_layout", "files": f_before, "keep": all_after if isinstance(all_after, list) else []})
-        ctx.corr("StoreLayout.listOids~ObjectDB.all() (before gc)", case, all_before, sorted(lay.get("oids", [])) if "oids" in lay else lay)
-        if isinstance(all_after, list):
-            ctx.corr("StoreLayout.afterGc~files below the store root after gc", case, f_after, sorted(lay.get("after_gc", [])) if "after_gc" in lay else lay)
-        if any(len(f) != 2 or len(f[0]) != 2 for f in f_before):
-            ctx.count("layout:files that are no objects below the root")
+    # (queued; run_cases sends the whole family to the driver in one batch - see flush_layout)
+    f_before, all_before, f_after, all_after = run_impl.layout
+    _LAYOUT_QUEUE.append((case, all_before, f_after, all_after,
+                          {"op": "store_layout", "files": f_before, "keep": all_after if isinstance(all_after, list) else []}))
+    if any(len(f) != 2 or len(f[0]) != 2 for f in f_before):
+        ctx.count("layout:files that are no objects below the root")
     # oracle
     ex_before, ex_after = run_impl.extras
     if case.get("nest"):
@@ -436,6 +433,17 @@ def model_req(case, uni, before=None):
             "unpacked": sorted(case.get("unpacked", [])) if case["local"] else []}
 
 
+_LAYOUT_QUEUE = []
+
+
+def flush_layout(ctx):
+    queue, _LAYOUT_QUEUE[:] = list(_LAYOUT_QUEUE), []
+    for (case, all_before, f_after, all_after, _req), lay in zip(queue, ctx.driver.batch([q[4] for q in queue])):
+        ctx.corr("StoreLayout.listOids~ObjectDB.all() (before gc)", case, all_before, sorted(lay.get("oids", [])) if "oids" in lay else lay)
+        if isinstance(all_after, list):
+            ctx.corr("StoreLayout.afterGc~files below the store root after gc", case, f_after, sorted(lay.get("after_gc", [])) if "after_gc" in lay else lay)
+
+
 def run_cases(ctx, n, algos=False, nested=False, names=False):
     if names:
         cases = [gen_case(ctx.rng, ctx.rng.choice(["md5", "md5", "md5-dos2unix", "sha256"]), names=True) for _ in range(n)]
@@ -446,6 +454,7 @@ def run_cases(ctx, n, algos=False, nested=False, names=False):
     answers = ctx.driver.batch([model_req(c, u) for c, u in cases])
     for (c, u), a in zip(cases, answers):
         check(ctx, c, u, a)
+    flush_layout(ctx)
 
 
 def run(ctx):
@@ -485,3 +494,4 @@ def replay(ctx, payload):
     c = payload.get("case") or payload.get("diverging_case")
     uni = rebuild_universe(c)
     check(ctx, c, uni, ctx.driver.ask(model_req(c, uni)))
+    flush_layout(ctx)
